@@ -6,8 +6,8 @@ MANIFEST = {
     "text": "Coq theorems over ALL event lists of an LTS model of the pending-request table (sends, the two atomic steps of "
             "every reply delivery in any order/multiplicity, wake-ups, timeouts, responses/heartbeats/pongs with arbitrary ids, "
             "connection loss; int32(uint32) id wrap explicit): C14_own_reply, C14_receives, C14_timeout, C14_outcome_stable, "
-            "C14_no_block, C14_no_leak, C14_fresh_ok, stated at the configuration REGENERATED from the source by `xlate futures` "
-            "(channel capacity, non-blocking signal, what the timeout removes, who stores a future, what a pong removes, payload-before-signal order at every delivery site, the id expression) with the "
+            "C14_no_block, C14_no_leak, C14_fresh_ok, C14_request_ids_distinct, stated at the configuration REGENERATED from the source by `xlate futures` "
+            "(channel capacity, non-blocking signal, what the timeout removes, who stores a future, what a pong removes, payload-before-signal order at every delivery site, the id source of every send site that writes an answerable frame) with the "
             "obligation C14_source_cfg_good; the model is tied to the real client by running SendSyncRequest/SendAsyncRequest/"
             "SendAsyncResponse/OnCron/OnMessage/OnOpen/OnClose over a fake getty session on generated histories (sequenced with "
             "checkpoints after every event, truly concurrent with 1..256 callers, and a batch with real 20 s timeouts, late and "
@@ -60,6 +60,8 @@ def ev_term(e):
         return "TE (ETimeout %d%%N)" % e[1]
     if t == "P":
         return "TE (EPong %s)" % z(e[1])
+    if t == "N":
+        return "TN %d%%N" % e[1]
     if t == "C":
         return "TE EClose"
     if t == "O":
@@ -209,7 +211,7 @@ def run(chk, only=None):
         "evaluations": len(cases),
         "distinct_nontrivial": vlib.distinct([(c["c0"], c["h0"], c["events"]) for c in nt]),
         "rule": "histories generated from the seed: every order of the replies for 1..3 (thorough 1..5) callers in flight (exhaustive, every second one with all replies duplicated afterwards); sequenced (every event completes before the next; checkpoint of table size and "
-                "parked deliveries after each), boundary (8-15 spinning callers released together while the id counter stands 1-4 steps before MaxInt32; all in flight before any reply; two requests in flight must never carry the same id), concurrent (1/2/8/64/256 callers released at once, replies from separate goroutines "
+                "parked deliveries after each), reopen (resources registered, 3-6 sync callers pending, connection lost, new session whose RegisterRM re-announcements are answered before the pending callers), boundary (8-15 spinning callers released together while the id counter stands 1-4 steps before MaxInt32; all in flight before any reply; two requests in flight must never carry the same id), concurrent (1/2/8/64/256 callers released at once, replies from separate goroutines "
                 "with delays, permuted and duplicated; compared through a witness linearisation) and batches with real 20 s timeouts "
                 "(dropped, late, late-duplicate replies, colliding responses/heartbeats/pongs, connection loss with requests pending); "
                 "1 in 5 sequenced histories is the malformed stream (unknown ids, junk bodies, colliding traffic only). "
